@@ -216,7 +216,7 @@ def cadence_cfgs(item):
             yield label + '_listed_first', entry, days, cfg2
 
 
-def check_cadence(label, entry, days, cfg, market, handler):
+def check_cadence(label, entry, days, cfg, market, handler, reuse_universe=False):
     """One observation per asset per business day - that day's close - and an empty window for a late entrant.
 
     Observed through the public interface only: a recording alpha model reads every signal value (every current
@@ -226,7 +226,13 @@ def check_cadence(label, entry, days, cfg, market, handler):
     values pin the start of the window.  Buffer internals are NOT read: how observations are stored is the
     library's business."""
     cfg = dict(cfg, probe_signals=[1, 2, 12])
-    obs = sl.run_session(cfg, handler)
+    uni = None
+    if reuse_universe:
+        # the universe object has already served a complete session (a re-run notebook cell, a parameter sweep):
+        # signals built on it afterwards still start every late entrant with an empty window
+        uni = sl.make_universe(cfg)
+        sl.run_session(dict(cfg, probe_signals=None), handler, universe=uni)
+    obs = sl.run_session(cfg, handler, universe=uni)
     if obs.error is not None:
         return [{'clause': 'C16.run_failed', 'detail': {'error': obs.error}}]
     fails = []
@@ -288,10 +294,17 @@ def per_cadence(item):
         runs = [(lab, e, dd, c, handler) for lab, e, dd, c in cadence_cfgs(item)]
         runs += [(lab + '_handler_universe', e, dd, c, handler_u) for lab, e, dd, c in cadence_cfgs(item)
                  if lab in ('static', 'before_start')]
+        k = 0
+        for lab, e, dd, c in cadence_cfgs(item):
+            if c['universe']['kind'] == 'dynamic' and lab.startswith('day'):
+                k += 1
+                if k % 4 == 1:
+                    runs.append((lab + '_universe_reused', e, dd, c, handler))
         for label, entry, days, cfg, hdl in runs:
-            fails = check_cadence(label.replace('_handler_universe', ''), entry, days, cfg, market, hdl)
+            fails = check_cadence(label.replace('_handler_universe', '').replace('_universe_reused', ''), entry, days, cfg, market, hdl,
+                                  reuse_universe=label.endswith('_universe_reused'))
             n += 1
-            labels.add((label.split('_', 1)[-1] if label.startswith('day') else label).replace('_listed_first', '').replace('_handler_universe', ''))
+            labels.add((label.split('_', 1)[-1] if label.startswith('day') else label).replace('_listed_first', '').replace('_handler_universe', '').replace('_universe_reused', ''))
             for f in fails:
                 f['case'] = {'part': 'cadence', 'label': label, 'entry': None if entry is None else entry.isoformat(),
                              'days': [x.isoformat() for x in days], 'cfg': cfg}
@@ -368,7 +381,8 @@ def replay(case):
         handler, _ = sl.load_handler(d, market)
         entry = None if case['entry'] is None else rm._parse(case['entry'])
         days = [datetime.date.fromisoformat(x) for x in case['days']]
-        return check_cadence(case['label'], entry, days, case['cfg'], market, handler)
+        return check_cadence(case['label'].replace('_handler_universe', '').replace('_universe_reused', ''), entry, days,
+                             case['cfg'], market, handler, reuse_universe=case['label'].endswith('_universe_reused'))
     finally:
         mk.clear_caches()
         shutil.rmtree(d, ignore_errors=True)
